@@ -448,9 +448,23 @@ def gen_op(rng, dump, profile='default'):
                 b = rng.choice([c for c in range(1, N_CONS + 1) if c != a])
                 u = rng.choice(good)
                 kb = st.cons.get(b)
+                claim_b = [(u, valid_claim(rng, st, u))]
+                held = [(x[1], x[2], x[3]) for x in st.allocs if x[0] == a and x[1] in st.rps]
+                if held and rng.random() < 0.5:
+                    # ... or B asks, on a (provider, class) A is leaving, for more than is free once A has left: the removal
+                    # entry comes FIRST in the request and must not switch the capacity check off for that inventory
+                    pu, prc, pamt = rng.choice(held)
+                    rcn = st_rcname(st, prc)
+                    inv = st.invs.get(pu, {}).get(rcn)
+                    if inv is not None and inv[6] == 1 and inv[4] <= 1:
+                        cap = int((inv[2] - inv[3]) * (inv[7] * 2.0 ** inv[8]))
+                        free = cap - st.used(pu, rcn) + pamt
+                        if 0 <= free < inv[5] and free + 1 <= ops.MAX_INT:
+                            claim_b = [(pu, [(rcn, free + 1)])]
+                            u = pu
                 cs[:] = [{'uuid': a, 'allocs': [], 'proj': st.cons[a][1], 'user': st.cons[a][2], 'gen': st.cons[a][4],
                           'type': (st.cons[a][3] if st.cons[a][3] != -1 else 1) if v >= 38 else None},
-                         {'uuid': b, 'allocs': [(u, valid_claim(rng, st, u))], 'proj': kb[1] if kb else 1, 'user': kb[2] if kb else 1,
+                         {'uuid': b, 'allocs': claim_b, 'proj': kb[1] if kb else 1, 'user': kb[2] if kb else 1,
                           'gen': kb[4] if kb else None, 'type': ((kb[3] if kb and kb[3] != -1 else 1) if v >= 38 else None)}]
         return ('alloc_post', v, cs)
     if kind == 'alloc_delete':
